@@ -57,16 +57,30 @@ def enum_members(prog: Program) -> List[str]:
     return [name for name in cls.class_attrs if not name.startswith("_")]
 
 
+def scheme_registry(prog: Program) -> Optional[Tuple[str, ast.Dict]]:
+    """(name, dict display) of the registry of schemes: a constant of the helper class or of its module whose values are
+    all constructor calls"""
+    helper = prog.cls(RCH)
+    candidates: List[Tuple[str, ast.AST]] = list(helper.class_attrs.items())
+    for stmt in helper.module.tree.body:
+        if isinstance(stmt, (ast.Assign, ast.AnnAssign)) and getattr(stmt, "value", None) is not None:
+            for target in (stmt.targets if isinstance(stmt, ast.Assign) else [stmt.target]):
+                if isinstance(target, ast.Name):
+                    candidates.append((target.id, stmt.value))
+    for name, value in candidates:
+        if isinstance(value, ast.Dict) and value.values and all(isinstance(v, ast.Call) and (dotted(v.func) or "") in helper.module.classes for v in value.values):
+            return name, value
+    return None
+
+
 def scheme_tables(prog: Program) -> Dict[str, Tuple[FuncInfo, Dict[str, int]]]:
     """scheme name -> (mapping function, {member: code}) resolved through __available_schemes."""
     helper = prog.cls(RCH)
     consts = {name: value.value for name, value in helper.class_attrs.items() if isinstance(value, ast.Constant)}
-    table_expr = None
-    for name, value in helper.class_attrs.items():
-        if isinstance(value, ast.Dict) and all(isinstance(v, ast.Call) for v in value.values):
-            table_expr = value
-    if table_expr is None:
+    found = scheme_registry(prog)
+    if found is None:
         raise AnalysisError("ReturnCodeHelper: scheme registry dict not found")
+    table_expr = found[1]
     out: Dict[str, Tuple[FuncInfo, Dict[str, int]]] = {}
     for key, value in zip(table_expr.keys, table_expr.values):
         if isinstance(key, ast.Constant):
@@ -293,9 +307,11 @@ def r18b(ctx: Context) -> None:
     else:
         rule.fail(func_key(applier), where(applier), "apply_scheme does not return the mapping's entry for its argument (a default or a different key breaks the documented table)")
     # the scheme object comes from the registry entry of the chosen name, with the default name as fallback
-    registry_attrs = {name for name, value in prog.cls(RCH).class_attrs.items() if isinstance(value, ast.Dict) and value.values and all(isinstance(v, ast.Call) for v in value.values)}
+    registry = scheme_registry(prog)
+    registry_attrs = {registry[0]} if registry else set()
     lookers = [prog.functions[q] for q in prog.reachable([owner]) if prog.functions[q].cls == owner.cls]
-    picks = [n for f in lookers for n in walk_local(f.node) if isinstance(n, ast.Subscript) and isinstance(n.value, ast.Attribute) and n.value.attr in registry_attrs]
+    picks = [n for f in lookers for n in walk_local(f.node) if isinstance(n, ast.Subscript)
+             and (isinstance(n.value, ast.Attribute) and n.value.attr in registry_attrs or isinstance(n.value, ast.Name) and n.value.id in registry_attrs)]
     if picks:
         rule.ok(func_key(owner) + ": scheme lookup", f"registry[{norm(picks[0].slice)}]")
     else:
